@@ -6,6 +6,7 @@ uses the v-th documented spelling of every argument specification (model operato
 API spellings of the other nodes -- and every prediction is compared with what the code does.
 """
 
+import contextlib
 import warnings
 from fractions import Fraction
 
@@ -31,7 +32,7 @@ def warm():
     import treelog
     from nutils import function, mesh, sample, evaluable
     M = _mesh()
-    with treelog.set(treelog.NullLog()):
+    with treelog.set(treelog.NullLog()), contextlib.suppress(Exception):   # (a failure here is reported by the replay itself)
         x = function.Argument('x', (2,))
         f = function.factor(function.replace_arguments(x * x, {'x': 2 * x}))
         function.eval(function.linearize(f, 'x:y') + numpy.sum(function.derivative(f, 'x'), -1), dict(x=[1., 2.], y=[0., 1.]))
